@@ -65,7 +65,7 @@ _typed_val = st.one_of(st.none(), st.booleans(), st.integers(-5, 10 ** 20), st.f
                        st.dictionaries(st.sampled_from(_VIEW_KEYS + ["a"]), st.one_of(st.none(), st.integers(0, 3), st.just("x"), st.just([])), max_size=3))
 _typed_obj = st.dictionaries(st.sampled_from(_VIEW_KEYS), _typed_val, min_size=1, max_size=4)
 _json_typed = st.one_of(_typed_obj, st.lists(st.one_of(_typed_obj, _typed_val), max_size=3)).map(lambda v: json.dumps(v).encode())
-_json_deep = st.tuples(st.sampled_from([400, 900, 1100, 3000, 20000, 120000]), st.sampled_from(["list", "dict", "query", "variables"])).map(
+_json_deep = st.tuples(st.sampled_from([400, 900, 1100, 3000, 6000]), st.sampled_from(["list", "dict", "query", "variables"])).map(
     lambda t: {"list": b"[" * t[0] + b"]" * t[0],
                "dict": b'{"a":' * t[0] + b"1" + b"}" * t[0],
                "query": b'{"query":' * t[0] + b'"q"' + b"}" * t[0],
